@@ -3,7 +3,9 @@ import ast
 import re
 import importlib
 
-from .. import q
+from .. import q, symeval, boolq
+from ..form import Rat
+from .. import trace as T
 from ..core import AnalysisError, const, dotted, norm, calls_in, call_name, parent_map
 
 EXPLANATION = (
@@ -159,7 +161,13 @@ def check_hooks(ctx):
     for entry, virt in (("plot", "_plot_core"), ("map", "_map_core"), ("plot_rank", "_plot_rank_core"), ("plot_impact", "_plot_impact_core"), ("plot_mapimpact", "_plot_mapimpact_core"),
                         ("text", "_get_x_y"), ("csv", "_get_x_y")):
         f = base.methods.get(entry)
-        ok = f is not None and ("self.%s(" % virt) in norm(f)
+        ok = False
+        if f is not None:
+            # by value: on every path to a normal exit the folded entry point makes the call self.<virtual>(...) - directly, through a
+            # helper that did not exist on the reference tree (inlined), or through a local name bound to the bound method
+            ev = T.trace(prog, "verif.output.Output." + entry)
+            cs = [e for e in T.calls(ev) if e["name"] == "self." + virt]
+            ok = bool(cs)
         ctx.ob("C19.3", "verif.output.Output." + entry, ok, "%s() dispatches to %s" % (entry, virt), msg="Output.%s no longer calls %s" % (entry, virt))
 
 
@@ -177,13 +185,41 @@ def check_flags(ctx):
             for flag in ("supports_threshold", "supports_field", "supports_aggregator", "require_threshold_type", "default_axis", "perfect_score", "orientation",
                          "min_num_thresholds", "max_num_thresholds"):
                 ctx.ob("C19.4", c.qual, prog.lookup_attr(c, flag) is not None, "%s defines %s" % (c.name, flag), msg="%s lacks %s" % (c.name, flag), nontrivial=False)
-    # the gates exist in the driver
-    run = norm(prog.func("verif.driver.run"))
-    for frag, what in (("axis is not None and (not pl.supports_x)", "-x is ignored for outputs that do not support it"),
-                       ("not pl.supports_threshold or (m is not None and (not m.supports_threshold))", "-x threshold is gated by supports_threshold"),
-                       ("not pl.supports_field or (m is not None and (not m.supports_field))", "-x obs/fcst is gated by supports_field"),
-                       ("if pl.supports_acc:", "-acc is gated by supports_acc")):
-        ctx.ob("C19.4", "verif.driver.run", frag in run, what, msg="the capability gate `%s` is gone or changed" % frag)
+    # the gates of the driver, by value: the statements of run() that read the capability flag are folded with the requested axis
+    # fixed; the axis that survives must be `None if <gate> else <the requested axis>` with <gate> propositionally equal to the
+    # documented one - however the test is spelled (one condition, nested ifs, De Morgan'd)
+    run_f = prog.func("verif.driver.run")
+    run = norm(run_f)
+    dm = prog.module("verif.driver")
+    last_pl = max([i for i, st in enumerate(run_f.body) if any(isinstance(n, ast.Name) and n.id == "pl" and isinstance(n.ctx, ast.Store) for n in ast.walk(st))] or [-1])
+    for attr, axis_src, want, what in (
+            ("supports_x", "axis0", "axis0 is not None and not pl.supports_x", "-x is ignored for outputs that do not support it"),
+            ("supports_threshold", "verif.axis.Threshold()", "not pl.supports_threshold or (m is not None and not m.supports_threshold)", "-x threshold is gated by supports_threshold"),
+            ("supports_field", "verif.axis.Obs()", "not pl.supports_field or (m is not None and not m.supports_field)", "-x obs is gated by supports_field"),
+            ("supports_field", "verif.axis.Fcst()", "not pl.supports_field or (m is not None and not m.supports_field)", "-x fcst is gated by supports_field")):
+        keep = [st for st in run_f.body[last_pl + 1:] if any(isinstance(n, ast.Attribute) and n.attr == attr for n in ast.walk(st))]
+        ok, found = False, "no statement of run() reads %s" % attr
+        if keep:
+            ev = symeval.Evaluator(dm)
+            ev.merge_ifs = True
+            try:
+                axv = ev.ev(ast.parse(axis_src, mode="eval").body, symeval.Path({"axis0": Rat.sym("axis0")}, []))
+                env = {"axis": axv, "axis0": Rat.sym("axis0")}
+                live = ev.run_stmts(keep, env=dict(env))
+                wantv = ev.ev(ast.parse(want, mode="eval").body, symeval.Path(dict(env), []))
+                if len(live) == 1 and isinstance(live[0].env.get("axis"), Rat):
+                    got = live[0].env["axis"]
+                    found = got.key()[:300]
+                    at = got.as_atom()
+                    if at is not None and at.func == "ifexp" and len(at.args) == 3 and at.args[1].key() == "$None" and at.args[2].equals(axv):
+                        ok = boolq.equivalent(boolq.prop(at.args[0]), boolq.prop(wantv))
+                    elif at is not None and at.func == "ifexp" and len(at.args) == 3 and at.args[2].key() == "$None" and at.args[1].equals(axv):
+                        ok = boolq.equivalent(("not", boolq.prop(at.args[0])), boolq.prop(wantv))
+            except (symeval.Undecided, AnalysisError, boolq.TooBig, RecursionError) as e:
+                found = "not foldable: %r" % (e,)
+        ctx.ob("C19.4", "verif.driver.run", ok, what, msg="the capability gate `%s` is gone or changed: with axis %s the axis becomes %s" % (want, axis_src, found),
+               expected="None if %s else %s" % (want, axis_src), found=found)
+    ctx.ob("C19.4", "verif.driver.run", "if pl.supports_acc:" in run, "-acc is gated by supports_acc", msg="the capability gate `if pl.supports_acc:` is gone or changed")
     ctx.ob("C19.4", "verif.driver.run", "verif.util.error('Type not understood')" in run, "an unknown -type stops with an error", msg="unknown -type is no longer rejected")
 
 
